@@ -84,9 +84,9 @@ theorem slashLiveness_ov (s : St) (R : List Rollapp) (Q : List QEntry) (H : List
     | none => rfl
     | some q =>
       dsimp only
-      have : (ov s R Q H).p = s.p := rfl
+      have : (ov s R Q H).sqp = s.sqp := rfl
       rw [this, slash_ov]
-      cases slash s q (min q.tokens (max s.p.lsAbs ((s.p.lsMul.mulInt q.tokens).truncateInt).toNat)) ⟨0⟩ none with
+      cases slash s q (min q.tokens (max s.sqp.lsAbs ((s.sqp.lsMul.mulInt q.tokens).truncateInt).toNat)) ⟨0⟩ none with
       | error e => rfl
       | ok x => obtain ⟨s1, q1⟩ := x; rfl
 
